@@ -977,4 +977,11 @@ theorem historyL_inv (batches : List (List Version)) (hne : batches.flatten ≠ 
   | none => rw [hh] at this; exact absurd this hne
   | some st => rw [hh] at this; exact ⟨st, rfl, this⟩
 
+/-- a publication history the property speaks about: non-empty, every version a proper series,
+    merged in non-decreasing stamp order -/
+structure Ordered (log : List Version) : Prop where
+  ne : log ≠ []
+  wf : ∀ v ∈ log, v.ts.Sorted
+  stamps : log.Pairwise (fun a b => a.stamp ≤ b.stamp)
+
 end Pyg.Bitemp
